@@ -156,7 +156,9 @@ impl Gen {
     }
 
     pub fn svcb(&mut self) -> SVCB<'static> {
-        let mut s = SVCB::new(self.u16(), self.name());
+        // priority 0 is AliasMode; parameters are then unusual but legal on the wire
+        let prio = if self.rng.chance(1, 5) { 0 } else { self.u16() };
+        let mut s = SVCB::new(prio, self.name());
         let n = self.rng.below(5) as usize;
         for k in self.inc_keys(65536, n) {
             let v = if self.rng.chance(1, 10) { self.blob() } else { let n = self.rng.below(12) as usize; self.rng.bytes(n) };
